@@ -42,6 +42,8 @@ class World(object):
         self.nsrc, self.nsea, self.nbor, self.flavs = nsrc, nsea, nbor, list(flavs)
         self.log = []
         self.unscripted = 0
+        self.nfail = 0
+        self.salt = 0
 
     def answer(self, key, default):
         a = self.script.get(key)
@@ -51,6 +53,14 @@ class World(object):
         return a
 
     def fail(self, cls, vid, msg):
+        """A failure of a component: any class of the package's own error hierarchy that has no
+        control-flow meaning for the caller (the model abstracts the class away: answer "err")."""
+        self.nfail += 1
+        pick = (self.salt + self.nfail * 7 + sum(map(ord, str(vid)))) % 3
+        if pick == 1:
+            cls = error.PySmiError
+        elif pick == 2 and cls in (error.PySmiReaderError, error.PySmiSearcherError, error.PySmiWriterError):
+            cls = error.PySmiCodegenError      # a foreign but package-typed error bubbling up from below
         exc = cls(msg)
         exc.vid = list(vid)
         return exc
@@ -212,7 +222,7 @@ DEFAULT_OPTS = {'noDeps': False, 'rebuild': False, 'ignoreErrors': False, 'genTe
                 'writeMibs': True, 'dryRun': False}
 
 
-def run_scenario(sc, nsrc, nsea, nbor, const_imp=()):
+def run_scenario(sc, nsrc, nsea, nbor, const_imp=(), salt=0):
     """sc: {'req': [...], 'env': [{'k': [kind, idx, name], 'r':..., 'mods': [...]}]}.  Returns a trace dict."""
     script = {}
     opts = dict(DEFAULT_OPTS)
@@ -227,6 +237,7 @@ def run_scenario(sc, nsrc, nsea, nbor, const_imp=()):
         else:
             script[(kind, idx, name)] = {'r': e['r'], 'mods': e.get('mods', [])}
     w = World(script, nsrc, nsea, nbor, flavs)
+    w.salt = salt
     c = MibCompiler(ParserDouble(w), CodegenDouble(w), WriterDouble(w))
     c._symbolgen = SymbolGenDouble(w, const_imp)
     c.addSources(*[SourceDouble(w, i + 1) for i in range(nsrc)])
